@@ -151,10 +151,16 @@ def file_roundtrip(points, compacts, dialect_name, ctx, case):
 
                 sentinel = "sentinel-%d" % len(points)
                 db.insert(Point(time=points[-1]["time"], measurement="zz", tags={"zz_sentinel": sentinel}))
-                n = db.remove(TagQuery()["zz_sentinel"] == sentinel)
+                try:
+                    n = db.remove(TagQuery()["zz_sentinel"] == sentinel)
+                except Exception as e:
+                    raise Violation("roundtrip", case, "file/%s: removing a sentinel point (a rewrite of the file) raised %r" % (dialect_name, e))
                 if n != 1:
                     raise Violation("roundtrip", case, "file/%s: sentinel removal returned %r" % (dialect_name, n))
-                live = [model.from_point(x) for x in db.all(sorted=False)]
+                try:
+                    live = [model.from_point(x) for x in db.all(sorted=False)]
+                except Exception as e:
+                    raise Violation("roundtrip", case, "file/%s: after a rewrite of the file the live instance cannot read it back: %r" % (dialect_name, e))
                 if len(live) != len(points):
                     raise Violation("roundtrip", case, "file/%s: after a rewrite the live instance holds %d points, expected %d" % (dialect_name, len(live), len(points)))
                 for p, g in zip(points, live):
@@ -167,9 +173,17 @@ def file_roundtrip(points, compacts, dialect_name, ctx, case):
             raise Violation("roundtrip", case, "file/%s: reopening the file raised %r" % (dialect_name, e))
         try:
             try:
-                got = [model.from_point(x) for x in db2.all(sorted=False)]
+                first = db2.all(sorted=False)
+                got = [model.from_point(x) for x in first]
+                # what a read hands back belongs to the caller: scribbling on it must not show up in the next read of the same file
+                for P in first:
+                    P.tags["zz_scribble"] = "1"
+                    P.fields.clear()
+                again = [model.from_point(x) for x in db2.all(sorted=False)]
             except Exception as e:
                 raise Violation("roundtrip", case, "file/%s: reading back raised %r" % (dialect_name, e))
+            if again != got:
+                raise Violation("roundtrip", case, "file/%s: a second read of the unchanged file returns something else after the caller modified the points returned by the first read" % dialect_name)
         finally:
             db2.close()
         if len(got) != len(points):
